@@ -104,7 +104,7 @@ func (s *JavaAPIListener) EnterAnnotation(ctx *parser.AnnotationContext) {
 	hasEnterRestController = true
 	uri := ""
 	if ctx.ElementValue() != nil {
-		uri = baseApiUrl + ctx.ElementValue().GetText()
+		uri = baseApiUrl + mappingPath(ctx.ElementValue().GetText())
 	} else {
 		uri = baseApiUrl
 	}
@@ -125,9 +125,8 @@ func (s *JavaAPIListener) EnterAnnotation(ctx *parser.AnnotationContext) {
 			if pair.Identifier().GetText() == "method" && annotationName == "RequestMapping" {
 				addApiMethod(pair.ElementValue().GetText())
 			}
-			if pair.Identifier().GetText() == "value" {
-				text := pair.ElementValue().GetText()
-				currentRestAPI.Uri = baseApiUrl + text[1:len(text)-1]
+			if isPathAttribute(pair.Identifier().GetText()) {
+				currentRestAPI.Uri = baseApiUrl + mappingPath(pair.ElementValue().GetText())
 			}
 		}
 	}
@@ -140,18 +139,32 @@ func buildBaseApiUrlString(annotationName string, ctx *parser.AnnotationContext)
 			allValuePair := ctx.ElementValuePairs().(*parser.ElementValuePairsContext).AllElementValuePair()
 			for _, valuePair := range allValuePair {
 				pair := valuePair.(*parser.ElementValuePairContext)
-				if pair.Identifier().GetText() == "value" {
-					text := pair.ElementValue().GetText()
-					baseApiUrl = text[1 : len(text)-1]
+				if isPathAttribute(pair.Identifier().GetText()) {
+					baseApiUrl = mappingPath(pair.ElementValue().GetText())
 				}
 			}
 		} else if ctx.ElementValue() != nil {
-			text := ctx.ElementValue().GetText()
-			baseApiUrl = text[1 : len(text)-1]
+			baseApiUrl = mappingPath(ctx.ElementValue().GetText())
 		} else {
 			baseApiUrl = "/"
 		}
 	}
+}
+
+// isPathAttribute: Spring's mapping annotations take the path as value or as its alias path
+func isPathAttribute(name string) bool {
+	return name == "value" || name == "path"
+}
+
+// mappingPath returns the path of a mapping annotation written as "/x" or as the one-element array {"/x"}
+func mappingPath(text string) string {
+	if strings.HasPrefix(text, "{") && strings.HasSuffix(text, "}") && !strings.Contains(text, ",") {
+		text = text[1 : len(text)-1]
+	}
+	if len(text) >= 2 && strings.HasPrefix(text, "\"") && strings.HasSuffix(text, "\"") {
+		text = text[1 : len(text)-1]
+	}
+	return text
 }
 
 func addApiMethod(annotationName string) {
